@@ -195,3 +195,18 @@
 		let r = Ia5String::try_from(s.as_str());
 		assert!(r.is_ok() == ((c as u32) < 0x80 && (d as u32) < 0x80));
 	}
+
+	/// @ob teletex.two_chars @props C13 @kind bounded @tier thorough @timeout 1800 @mem 16 @bound "every two-character string" @fns rcgen::string::TeletexString::try_from
+	#[kani::proof]
+	#[kani::unwind(10)]
+	fn teletex_two_chars() {
+		let c: char = kani::any();
+		let d: char = kani::any();
+		let mut s = String::new();
+		s.push(c);
+		s.push(d);
+		kani::cover!(true, "reachable");
+		let ok = |x: char| (x as u32) >= 0x20 && (x as u32) <= 0x7f;
+		let r = TeletexString::try_from(s.as_str());
+		assert!(r.is_ok() == (ok(c) && ok(d)));
+	}
